@@ -19,7 +19,9 @@ ALL = ["C01", "C02", "C03", "C04", "C06", "C07", "C08", "C09", "C10", "C11", "C1
 
 # property -> list of MC configurations (family, groups, msgids, qoss, maxevents quick/thorough, auth, creds)
 CONNECT = dict(family="connect", groups=["connect", "auth", "will", "sleep", "term", "other", "pub", "reg", "time"],
-               msgids=[1], qoss=[0, 3], depth=(4, 5), auth=[True, False], creds=[True, False], pairs=True)
+               msgids=[1], qoss=[0, 3], depth=(4, 5), auth=[True, False], creds=[True, False])
+# the properties about the connect exchange itself additionally get transition-pair coverage around it
+CONNECT2 = dict(CONNECT, pairs=True)
 DATA_PUB = dict(family="data", groups=["reg", "sub", "pub", "pubrel", "back", "time"], msgids=[1], qoss=[0, 1, 2, 3],
                 depth=(3, 4), auth=[False], creds=[False])
 DATA_BPUB = dict(family="data", groups=["reg", "sub", "bpub", "cack", "back", "time"], msgids=[1], qoss=[0, 1, 2],
@@ -40,11 +42,12 @@ DATA_PUBX = dict(family="data", groups=["reg", "bpub", "cack", "pub"], msgids=[1
 
 PLAN = {
     "C01": [DATA_PUB, DATA_PUBX], "C02": [DATA_BPUB], "C03": [DATA_CTRL, DATA_PUB], "C04": [DATA_IDS], "C06": [DATA_MIX],
-    "C07": [CONNECT], "C08": [CONNECT], "C09": [CONNECT], "C10": [CONNECT], "C11": [SLEEP], "C12": [SLEEP],
+    "C07": [CONNECT2], "C08": [CONNECT2], "C09": [CONNECT2], "C10": [CONNECT2], "C11": [SLEEP], "C12": [SLEEP],
     "C13": [TERM, CONNECT], "C14": [TERM, CONNECT], "C23": [CONNECT, DATA_BPUB, SLEEP], "C24": [CONNECT, DATA_PUB, DATA_CTRL],
     "C34": [SLEEP, CONNECT],
 }
-QUICK_SAMPLE = 2500     # schedules per MC configuration executed in the quick tier
+QUICK_SAMPLE = int(os.environ.get("VERIF_QUICK_SAMPLE", "2500"))     # schedules per MC configuration executed in the quick tier
+SHAPE_CAP = int(os.environ.get("VERIF_SHAPE_CAP", "9000"))           # ... raised to one per schedule shape, up to this many
 
 
 def tla_set(xs):
@@ -137,7 +140,9 @@ def shape(d):
             p = e["p"]
             name = p["topic"] or p["sname"]
             out.append((p["t"], p["rc"], p["tit"], p["qos"] == 3, p["dur"] > 0, p["will"], p["plainok"], p["empty"], p["wild"],
-                        bool(name) and name in seen, p["pass"] == "" and p["plainok"]))
+                        bool(name) and name in seen, p["pass"] == "" and p["plainok"],
+                        # an acknowledgement: which of the open exchanges / registrations it refers to
+                        (p["tid"], p["mid"]) if p["t"] in ("REGACK", "PUBACK", "PUBREC", "PUBCOMP", "PUBREL") else None))
             seen.add(name)
         elif e["t"] == "B":
             m = e["m"]
@@ -161,6 +166,9 @@ def stratified(scheds, budget, rnd):
     strata = {}
     for d in rest:
         strata.setdefault(shape(d), []).append(d)
+    # at least one schedule of every shape (up to a cap): a sample smaller than the number of shapes makes the
+    # detection of a history-specific defect a lottery over VERIF_SEED
+    budget = max(budget, min(len(strata) + len(short) + 200, SHAPE_CAP))
     keys = sorted(strata, key=repr)
     rnd.shuffle(keys)
     for k in keys:
@@ -218,8 +226,10 @@ def execute(scenarios, binary):
             crashes.append({"scenario": todo[idx], "output": out[-3000:], "rc": rc,
                             "partial": [l for l in got if l["tr"] == prog]})
             todo = todo[idx + 1:]
-            if rounds > 400:
-                raise vlib.Inconclusive("too many driver crashes")
+            if len(crashes) >= 25:
+                # enough: every crash is reported (a violation for C13/C25, inconclusive otherwise); a change
+                # that makes every other scenario die would otherwise restart the driver thousands of times
+                break
         return lines, crashes
 
     res = vlib.pmap(one, list(enumerate(parts)))
